@@ -60,30 +60,42 @@ def extracted(report):
     f = X.locate(H, "random", cls="SimpleRandom")
     t, R = cgen.emit(f, "SimpleRandom_random", ret_c="Scalar", self_type="SimpleRandom", members=mem, extra_rules=[
         ("run", r"RandomScalar<Scalar>::run\(", "RandomScalar_run(&", {"min": 1, "max": 1})],
-        contract="__CPROVER_requires(__CPROVER_is_fresh(self, sizeof(*self)) && 1 <= self->m_rand && self->m_rand <= MMAX - 1) "
-                 "__CPROVER_assigns(self->m_rand) "
+        pre_body=" g_self_steps++;   /* ghost: random() advances the OBJECT's state by one step (proved in random.LP64) */",
+        contract="__CPROVER_requires(__CPROVER_is_fresh(self, sizeof(*self)) && 1 <= self->m_rand && self->m_rand <= MMAX - 1 && 0 <= g_self_steps && g_self_steps <= 1048576) "
+                 "__CPROVER_assigns(self->m_rand, g_self_steps) "
+                 "__CPROVER_ensures(g_self_steps == __CPROVER_old(g_self_steps) + 1) "
                  "__CPROVER_ensures(1 <= self->m_rand && self->m_rand <= MMAX - 1) "
                  "__CPROVER_ensures(-0.5 <= __CPROVER_return_value && __CPROVER_return_value <= 0.5)")
     parts.append(t); report["SimpleRandom::random"] = R.fired
     f = X.locate(H, "random_vec", cls="SimpleRandom", params_re=r"Vector\s*&")
     t, R = cgen.emit(f, "SimpleRandom_random_vec", ret_c="void", self_type="SimpleRandom", members=mem,
                      extra_rules=[("size", r"\(\*vec\)\.size\(\)", "(*vec).size", {"min": 1, "max": 1}),
-                                  ("index", r"\(\*vec\)\[", "(*vec).data[", {"min": 1, "max": 1}),
-                                  ("random", r"(?<![\w>.])random\(\)", "SimpleRandom_random(self)", {"min": 1, "max": 1})],
-                     contract="__CPROVER_requires(__CPROVER_is_fresh(self, sizeof(*self)) && 1 <= self->m_rand && self->m_rand <= MMAX - 1) "
+                                  ("index", r"\(\*vec\)\[", "(*vec).data[", {"min": 0, "max": 2}),
+                                  ("data", r"\(\*vec\)\.data\(\)", "(*vec).data", {"min": 0, "max": 2}),
+                                  ("auto", r"\bauto (\w+) = ", r"long \1 = ", {"min": 0, "max": 2}),
+                                  # a draw made directly with the scalar generator: tracked - does it step the OBJECT's state word or something else?
+                                  ("run-direct", r"RandomScalar<Scalar>::run\(", "RUN_TRACK(&", {"min": 0, "max": 2}),
+                                  ("random", r"(?<![\w>.])random\(\)", "SimpleRandom_random(self)", {"min": 0, "max": 2})],
+                     pre_body=" g_state_ptr = &self->m_rand; const Index verif_steps0 = g_self_steps;",
+                     contract="__CPROVER_requires(__CPROVER_is_fresh(self, sizeof(*self)) && 1 <= self->m_rand && self->m_rand <= MMAX - 1 && g_self_steps == 0) "
                               "__CPROVER_requires(__CPROVER_is_fresh(vec, sizeof(*vec)) && 0 <= vec->size && vec->size <= 1048576 "
                               " && __CPROVER_is_fresh(vec->data, vec->size * sizeof(Scalar))) "
-                              "__CPROVER_assigns(self->m_rand, __CPROVER_object_whole(vec->data)) "
+                              "__CPROVER_assigns(self->m_rand, g_self_steps, g_state_ptr, __CPROVER_object_whole(vec->data)) "
+                              "__CPROVER_ensures(g_self_steps == vec->size) "
                               "__CPROVER_ensures(1 <= self->m_rand && self->m_rand <= MMAX - 1) "
                               "__CPROVER_ensures((0 <= ghost_g && ghost_g < vec->size) ==> (-0.5 <= vec->data[ghost_g] && vec->data[ghost_g] <= 0.5))",
-                     loop_contracts={0: "__CPROVER_assigns(i, self->m_rand, __CPROVER_object_whole(vec->data)) "
-                                        "__CPROVER_loop_invariant(0 <= i && i <= len) "
+                     loop_contracts={0: "__CPROVER_assigns(i, self->m_rand, g_self_steps, __CPROVER_object_whole(vec->data)) "
+                                        "__CPROVER_loop_invariant(0 <= i && i <= len && g_self_steps == verif_steps0 + i) "
                                         "__CPROVER_loop_invariant(1 <= self->m_rand && self->m_rand <= MMAX - 1) "
                                         "__CPROVER_loop_invariant((0 <= ghost_g && ghost_g < i) ==> (-0.5 <= vec->data[ghost_g] && vec->data[ghost_g] <= 0.5)) "
                                         "__CPROVER_decreases(len - i)"})
     parts.append(t); report["SimpleRandom::random_vec"] = R.fired
     report["_parts"] = parts
-    return "Index ghost_g;\n" + "\n".join(parts)
+    if report["SimpleRandom::random_vec"].get("x:random", 0) + report["SimpleRandom::random_vec"].get("x:run-direct", 0) < 1:
+        raise X.ExtractionBreak("random_vec: no recognised draw in the fill loop")
+    ghost = ("Index ghost_g;\nIndex g_self_steps;      /* ghost: steps taken by the state word of the SimpleRandom object under test */\nlong *g_state_ptr;       /* ghost: address of that state word */\n"
+             "Scalar RandomScalar_run(long *seed);\nstatic Scalar RUN_TRACK(long *p) { if (p == g_state_ptr) g_self_steps++; return RandomScalar_run(p); }\n")
+    return ghost + "\n".join(parts)
 
 
 def purity_scan(report):
@@ -304,7 +316,7 @@ def build(tier):
     base = MINI_PRELUDE + ext
     # same text with the definition of RandomScalar<Scalar>::run cut out (replaced by its contract stub)
     parts = report.pop("_parts")
-    base_nrun = MINI_PRELUDE + "Index ghost_g;\nScalar RandomScalar_run(long *seed);\n" + \
+    base_nrun = MINI_PRELUDE + "Index ghost_g;\nIndex g_self_steps; long *g_state_ptr;\nScalar RandomScalar_run(long *seed);\nstatic Scalar RUN_TRACK(long *p) { if (p == g_state_ptr) g_self_steps++; return RandomScalar_run(p); }\n" + \
         "\n".join(p for p in parts if "Scalar RandomScalar_run(long *seed)" not in p)
     bad = purity_scan(report)
     funcs_rng = ["SimpleRandom.h:next_long_rand"]
@@ -396,7 +408,7 @@ def replay(g, o, assigns, path):
     from vlib.runner import last_value
     s = last_value(assigns, "s") or last_value(assigns, "seed")
     if s is None:
-        return {"reproduced": False, "why": "no input variable in trace"}
+        s = "12345"     # obligations about the object's state (random_vec) have no scalar input in the trace: replay the sequence family at a fixed seed
     try:
         sval = int(str(s).replace("l", "").replace("u", "").replace("L", "").replace("U", ""))
     except ValueError:
@@ -426,6 +438,14 @@ int main() {
   Spectra::SimpleRandom<double> g((unsigned long)s);
   double d = g.random();
   if (!(d >= -0.5 && d <= 0.5)) bad = 1;
+  // the object's state advances by exactly one step per element drawn, also through random_vec
+  for (unsigned long seed : {(unsigned long)(s > 0 ? s : 1), 1UL, 2147483646UL, 7UL}) for (int len : {1, 2, 5}) {
+    Spectra::SimpleRandom<double> a(seed), b(seed); Eigen::VectorXd v(len); a.random_vec(v);
+    for (int i = 0; i < len; i++) { double w = b.random(); if (v[i] != w) { printf("random_vec element %%d differs from the %%d-th draw\n", i, i); bad = 1; } }
+    double na = a.random(), nb = b.random();
+    if (na != nb) { printf("seed %%lu len %%d: the draw after random_vec is %%g, the Park-Miller continuation is %%g (state not advanced by len steps)\n", seed, len, na, nb); bad = 1; }
+    Eigen::VectorXd w2 = a.random_vec(len); for (int i = 0; i < len; i++) { double w = b.random(); if (w2[i] != w) { printf("random_vec(len) element %%d differs\n", i); bad = 1; } }
+  }
   printf(bad ? "REPRODUCED\n" : "not reproduced\n");
   return bad;
 }
